@@ -18,6 +18,12 @@ tie    : (a) T-gen per class: bitstructs._create_fn is wrapped FROM HERE and the
          passing check into "for all values of this shape".
          (b) T-diff on values: to_bits, from_bits, ==, hash, clone, deepcopy, @=, <<= + _flip of the real classes against
          pack / unpack / veqb / run_scenario evaluated by coqc.
+         (c) construction: the generated __init__ text is captured and checked too (every default element a separate constructor call,
+         constructor names bound to the declared types); instances are built in every way (T(), explicit args, partly defaulted args,
+         from_bits) and used as source AND destination of @= / <<= / in-place leaf writes; every instance is scanned for one object
+         sitting at two positions; "families" of declarations sharing one class name (permuted order, re-paired names/types, one type
+         changed, nesting changed, identical re-declaration) are each checked against their OWN declaration (__bitstruct_fields__ order,
+         generated texts, values).
 partial: the store model abstracts Python objects to trees of cells (a struct instance / list is immutable apart from its leaf cells);
          the link "per-class slot recursion = leaf-wise fold" is by construction of the model, checked by (b) only.
 """
@@ -29,7 +35,7 @@ import bitstruct_src2coq as TR
 FIELD_NAMES = ['a', 'b', 'c', 'x', 'y', 'z', 's', 'self', 'other', 'cls', 'memo', 'v', '_q', 'f0', 'data', 'en', 'opaque',
                'concat', 'i', 'k', 'hash', 'val', 'rdy', 'msg', 'Bits8', '_type0', 'nbits_', 'other_', 'S', 'l']
 LEAF_W = [1, 1, 1, 2, 3, 4, 4, 5, 7, 8, 8, 9, 16, 17, 31, 32, 33, 64]
-METHODS = ['to_bits', 'from_bits', 'clone', '__deepcopy__', '__imatmul__', '__ilshift__', '_flip', '__eq__', '__hash__']
+METHODS = ['__init__', 'to_bits', 'from_bits', 'clone', '__deepcopy__', '__imatmul__', '__ilshift__', '_flip', '__eq__', '__hash__']
 
 class Cls:
   """one generated bitstruct class"""
@@ -119,10 +125,6 @@ def run(ctx):
   BS._create_fn = wrapped_create
   BS.py = _PyProxy
 
-  def build(s, v):
-    if s[0] == 'b': return mk_bits(s[1])(v)
-    if s[0] == 's': return s[1].pycls(*[build(f, x) for (_, f), x in zip(s[1].fields, v)])
-    return [build(s[2], x) for x in v]
   def observe(s, o):
     if s[0] == 'b':
       if not isinstance(o, Bits) or o.nbits != s[1]: raise NotWellTyped(f'leaf {o!r} is not Bits{s[1]}')
@@ -180,54 +182,71 @@ def run(ctx):
       kind = 'b'
     ws = [w for w in LEAF_W if w <= budget]
     return ('b', rng.choice(ws))
-  def gen_class(max_depth, forced=None):
+  def rand_fields(max_depth):
+    nf = rng.choice([1, 2, 2, 3, 3, 4, 5, 6])
+    names = rng.sample(FIELD_NAMES, nf)
+    if rng.random() < 0.3: names[rng.randrange(nf)] = rng.choice(['s', 'self']) if not {'s', 'self'} & set(names) else names[0]
+    names = list(dict.fromkeys(names))
+    budget = rng.choice([1023, 1023, 200, 64, 40])
+    fields = []
+    for k, n in enumerate(names):
+      rest = len(names) - k - 1
+      if budget - rest < 1: break
+      s = gen_field_shape(max_depth - 1, budget - rest)
+      if fields and rng.random() < 0.15: s = fields[-1][1] if sh_width(fields[-1][1]) <= budget - rest else s   # two equal fields in a row
+      fields.append((n, s)); budget -= sh_width(s)
+    return fields
+  def ty(s):
+    return mk_bits(s[1]) if s[0] == 'b' else s[1].pycls if s[0] == 's' else [ty(s[2])] * s[1]
+  def gen_class(max_depth, forced=None, name=None):
+    """declare one bitstruct type; whatever pymtl3 hands back is afterwards checked against THIS declaration"""
     idx = len(classes)
-    if forced is not None: fields = forced
-    else:
-      nf = rng.choice([1, 2, 2, 3, 3, 4, 5, 6])
-      names = rng.sample(FIELD_NAMES, nf)
-      if rng.random() < 0.3: names[rng.randrange(nf)] = rng.choice(['s', 'self']) if not {'s', 'self'} & set(names) else names[0]
-      names = list(dict.fromkeys(names))
-      budget = rng.choice([1023, 1023, 200, 64, 40])
-      fields = []
-      for k, n in enumerate(names):
-        rest = len(names) - k - 1
-        if budget - rest < 1: break
-        s = gen_field_shape(max_depth - 1, budget - rest)
-        if fields and rng.random() < 0.15: s = fields[-1][1] if sh_width(fields[-1][1]) <= budget - rest else s   # two equal fields in a row
-        fields.append((n, s)); budget -= sh_width(s)
+    fields = forced if forced is not None else rand_fields(max_depth)
     depth = 1 + max([sh_depth(s) for _, s in fields] + [0])
-    c = Cls(idx, f'BS{uniq}_{idx}', fields, depth)
+    c = Cls(idx, name or f'BS{uniq}_{idx}', fields, depth)
     assert 1 <= c.width <= 1023 and depth <= 4, (c.width, depth)
-    def ty(s):
-      return mk_bits(s[1]) if s[0] == 'b' else s[1].pycls if s[0] == 's' else [ty(s[2])] * s[1]
     n0 = len(captured)
+    declared = {n: ty(s) for n, s in fields}
     try:
-      c.pycls = mk_bitstruct(c.name, {n: ty(s) for n, s in fields})
+      c.pycls = mk_bitstruct(c.name, dict(declared))
     except Exception as e:
       ctx.violation('C06:create:' + hashlib.sha1(json.dumps(c.spec()).encode()).hexdigest()[:10],
                     f'creating a legal bitstruct type (width {c.width}) raised {e!r}', {'shape': c.spec(), 'traceback': traceback.format_exc()[-1200:]})
-      if forced is not None: raise CreateFailed()
+      if forced is not None and name is None: raise CreateFailed()
       return None
     for fn_name, src, fn in captured[n0:]:
       c.src[fn_name] = src; c.fn_globals[fn_name] = fn.__globals__
+    prior = next((k for k in classes if k.pycls is c.pycls), None)
+    if prior is not None:            # pymtl3 returned an already existing class object (its type cache)
+      c.src, c.fn_globals = dict(prior.src), dict(prior.fn_globals)
+    actual = getattr(c.pycls, '__bitstruct_fields__', None)
+    if actual is None or list(actual.items()) != list(declared.items()) or getattr(c.pycls, '__name__', None) != c.name:
+      ctx.violation('C06:declared-fields:' + hashlib.sha1(json.dumps([c.spec(), prior.spec() if prior else None]).encode()).hexdigest()[:10],
+                    f'declaring bitstruct {c.name} with fields {[n for n, _ in fields]} returned a type whose fields are '
+                    f'{list(actual) if actual is not None else None}' + (f' (the class object of an earlier, different declaration of the same name)' if prior else '')
+                    + ': its layout cannot be first-DECLARED-field-most-significant',
+                    {'shape': c.spec(), 'earlier_shape': prior.spec() if prior else None, 'actual_fields': [str(x) for x in (actual or {}).items()]})
     classes.append(c)
     return c
 
   def from_spec(spec, cache):
-    """rebuild a class (and the classes nested in it) from the JSON description stored in a replay file"""
+    """rebuild a class (and the classes nested in it) from the JSON description stored in a replay file, names included"""
     def sh(x):
       if isinstance(x, str): return ('b', int(x[4:]))
       if isinstance(x, dict):
-        if x['name'] not in cache: cache[x['name']] = gen_class(4, [(n, sh(t)) for n, t in x['fields']])
-        return ('s', cache[x['name']])
+        k = json.dumps(x)
+        if k not in cache: cache[k] = gen_class(4, [(n, sh(t)) for n, t in x['fields']], name=x['name'])
+        if cache[k] is None: raise CreateFailed()
+        return ('s', cache[k])
       return ('l', len(x), sh(x[0]))
     return sh(spec)[1]
   rp = getattr(ctx, 'replay_data', None)
   # directed shapes first: the ones the property text singles out
   try:
     if rp is not None:
-      from_spec(rp['shape'], {})
+      cache = {}
+      if rp.get('earlier_shape'): from_spec(rp['earlier_shape'], cache)
+      from_spec(rp['shape'], cache)
       raise StopIteration
     b = lambda n: ('b', n)
     c_in = gen_class(4, [('x', b(4)), ('y', b(4))])
@@ -247,11 +266,32 @@ def run(ctx):
   except CreateFailed:
     BS._create_fn, BS.py = real_create, real_py
     return
-  nrand = (110 if quick else 420) if rp is None else len(classes) - 12
+  nrand = (110 if quick else 320) if rp is None else len(classes) - 12
   tries = 0
   while len(classes) < 12 + nrand and tries < 3 * nrand:
     tries += 1
     gen_class(rng.choice([1, 2, 2, 3, 3, 4]))
+  # families: several declarations that share ONE class name and (mostly) one field set, but differ in field order, in the
+  # pairing of names and types, in one type, or in nesting; plus an identical re-declaration.  Each is checked against its own declaration.
+  nfam = 0 if rp is not None else (8 if quick else 30)
+  for k in range(nfam):
+    for _ in range(50):
+      base = rand_fields(rng.choice([1, 2, 3]))
+      if len(base) >= 2 and len({json.dumps(sh_spec(x)) for _, x in base}) >= 2: break
+    else: continue
+    fam = f'Fam{uniq}_{k}'
+    variants = [base, base[::-1], base[1:] + base[:1], list(base)]
+    i, j = rng.sample(range(len(base)), 2)
+    sw = list(base); sw[i], sw[j] = (base[i][0], base[j][1]), (base[j][0], base[i][1]); variants.append(sw)       # same names, same types, other pairing
+    tot = sum(sh_width(x) for _, x in base)
+    bi_ = [q for q, (_, x) in enumerate(base) if x[0] == 'b']
+    if bi_ and tot < 1023:
+      q = rng.choice(bi_); w1 = list(base); w1[q] = (base[q][0], ('b', base[q][1][1] + 1)); variants.append(w1)      # one type differs
+    q = rng.randrange(len(base))
+    if not (base[q][1][0] == 'l' and base[q][1][2][0] == 'l' and base[q][1][2][2][0] == 'l'):
+      n1 = list(base); n1[q] = (base[q][0], ('l', 1, base[q][1])); variants.append(n1)                             # nesting differs
+    rng.shuffle(variants)
+    for v in variants: gen_class(4, v, name=fam)
   shape_defs = '\n'.join(f'Definition T{c.idx} : shape := {cls_term(c)}.' for c in classes)
   imports = 'Base.Prelude Struct.Shape Struct.Layout'
 
@@ -263,7 +303,9 @@ def run(ctx):
       ctx.violation(f'C06:tgen:capture:{",".join(missing)}', f'could not capture the generated source of {missing} for {c.name} (generation path changed)',
                     {'shape': c.spec(), 'captured': sorted(c.src)}, found_input=False)
       continue
+    def pytype(sh): return mk_bits(sh[1]) if sh[0] == 'b' else sh[1].pycls
     parsers = [
+      ('__init__',     lambda: 'GClone [' + '; '.join(TR.t_ctree(t) for t in TR.parse_init(c, c.src["__init__"], c.fn_globals["__init__"], pytype)) + ']'),
       ('to_bits',      lambda: f'GToBits {zlit(int(c.pycls.nbits))} {TR.t_paths(TR.parse_to_bits(c, c.src["to_bits"]))}'),
       ('from_bits',    lambda: f'GFromBits ({TR.t_rtree(TR.parse_from_bits(c, c.src["from_bits"], c.fn_globals["from_bits"]))})'),
       ('clone',        lambda: 'GClone [' + '; '.join(TR.t_ctree(t) for t in TR.parse_clone(c, c.src["clone"], "clone")) + ']'),
@@ -295,7 +337,7 @@ def run(ctx):
                      'expected_slice_tree': exp[1][:3000]}, found_input=False)
   k4 = min(4, len(classes) - 1)
   ctx.sample({'kind': 'tgen', 'shape': classes[k4].spec(), 'to_bits': classes[k4].src.get('to_bits'), 'from_bits': (classes[k4].src.get('from_bits') or '')[-400:]})
-  if g_cases: ctx.sample({'kind': 'tgen-coq', 'case': g_cases[min(k4 * 9, len(g_cases) - 1)][:600]})
+  if g_cases: ctx.sample({'kind': 'tgen-coq', 'case': g_cases[min(k4 * 10 + 1, len(g_cases) - 1)][:600]})
 
   # ---------------- (b) T-diff on values ----------------
   p_cases, p_meta = [], []      # to_bits:  (T, v, nbits, uint)
@@ -307,6 +349,97 @@ def run(ctx):
   def viol_value(kind, c, what, extra):
     h = hashlib.sha1(json.dumps([kind, c.spec(), extra.get('value'), extra.get('bits')], default=str).encode()).hexdigest()[:10]
     ctx.violation(f'C06:{kind}:{h}', what, dict({'shape': c.spec()}, **extra))
+
+  # ---------------- instances: every way of building one ----------------
+  def is_zero(v): return v == 0 if isinstance(v, int) else all(is_zero(x) for x in v)
+  def build(s, v, dflt=0.0, in_list=False):
+    """explicit constructor arguments; an all-zero struct / list FIELD is left to its default (None) with probability dflt"""
+    if s[0] == 'b': return mk_bits(s[1])(v) if (in_list or rng.random() < 0.7) else v
+    if s[0] == 's':
+      args = [None if (f[0] != 'b' and is_zero(x) and rng.random() < dflt) else build(f, x, dflt) for (_, f), x in zip(s[1].fields, v)]
+      return s[1].pycls(*args)
+    return [build(s[2], x, dflt, True) for x in v]
+  def mk_inst(c, v, how):
+    s = ('s', c)
+    if how == 'auto':
+      how = 'default' if (is_zero(v) and rng.random() < 0.5) else rng.choice(['args', 'args', 'partial', 'from_bits'])
+    if how == 'default':
+      assert is_zero(v); o = c.pycls()
+    elif how == 'from_bits': o = c.pycls.from_bits(mk_bits(c.width)(v_pack(s, v)))
+    else: o = build(s, v, 1.0 if how == 'partial' else 0.0)
+    l = ids(s, o, [])
+    if len(set(l)) != len(l):
+      viol_value('alias-within', c, f'an instance built by {how} contains the SAME object at {len(l) - len(set(l))} different positions '
+                 '(rows / elements / fields must be distinct objects, else a write to one shows in the other)', {'value': v, 'built_by': how})
+    return o, how
+  def scan_one(c, o, what, va, vb):
+    l = ids(('s', c), o, [])
+    if len(set(l)) != len(l):
+      viol_value(what + '-alias-within', c, f'after {what} the object contains the same sub-object at several positions', {'value': va, 'other': vb})
+
+  def scenario(c, op, va, vb, how_a, how_b):
+    s = ('s', c); leaves = sh_leaves(s)
+    p, w = rng.choice(leaves)
+    who = rng.random() < 0.5
+    hows = (how_a, how_b)
+    try:
+      a, ha = mk_inst(c, va, how_a); bobj, hb = mk_inst(c, vb, how_b)
+      hows = (ha, hb)
+      def write(tgt):
+        ub = int(leaf_obj(s, tgt, p).uint()); u = (ub + 1 + (rng.randrange((1 << w) - 1) if w > 1 else 0)) % (1 << w)
+        operator.imatmul(leaf_obj(s, tgt, p), mk_bits(w)(u))
+        return u
+      if op == 'poke':
+        u = write(a); oa = observe(s, a)
+        obs = (oa, oa); scop = 'ScPoke'
+      elif op in ('clone', 'deepcopy'):
+        cpy = a.clone() if op == 'clone' else copy.deepcopy(a)
+        if type(cpy) is not c.pycls or not (cpy == a):
+          viol_value(op + '-neq', c, f'{op}() is not equal to the original', {'value': va, 'built_by': hows})
+        shared = set(ids(s, a, [])) & set(ids(s, cpy, []))
+        if shared:
+          viol_value(op + '-shared', c, f'{op}() shares {len(shared)} sub-object(s) with the original', {'value': va, 'built_by': hows})
+        scan_one(c, cpy, op, va, vb)
+        u = write(cpy if who else a)
+        obs = (observe(s, a), observe(s, cpy)); scop = 'ScClone'
+      elif op == 'imatmul_bits':
+        a @= bobj.to_bits()
+        if packed(a) != packed(bobj) or observe(s, a) != observe(s, bobj):
+          viol_value(op, c, 'x @= Bits(...) did not store the value', {'value': va, 'bits': hex(packed(bobj)), 'built_by': hows})
+        ctx.count((op, c.spec(), repr(va), repr(vb), hows), True, cls='copy:' + op)
+        return
+      elif op == 'imatmul':
+        a @= bobj
+        if set(ids(s, a, [])) & set(ids(s, bobj, [])):
+          viol_value(op + '-shared', c, '@= left the destination sharing sub-objects with the source', {'value': va, 'other': vb, 'built_by': hows})
+        scan_one(c, a, '@=', va, vb)
+        u = write(a if who else bobj)
+        obs = (observe(s, bobj), observe(s, a)); scop = 'ScImatmul'
+      elif op == 'ilshift_noflip':
+        a <<= bobj
+        u = 0
+        obs = (observe(s, bobj), observe(s, a)); scop = 'ScIlshiftNoFlip'
+      elif op == 'ilshift_flip':
+        a <<= bobj
+        a._flip()
+        if set(ids(s, a, [])) & set(ids(s, bobj, [])):
+          viol_value(op + '-shared', c, '<<= / _flip left the destination sharing sub-objects with the source', {'value': va, 'other': vb, 'built_by': hows})
+        scan_one(c, a, '<<= and _flip', va, vb)
+        u = write(a if who else bobj)
+        obs = (observe(s, bobj), observe(s, a)); scop = 'ScIlshiftFlip'
+      else:
+        a <<= bobj
+        u = write(bobj)
+        a._flip()
+        obs = (observe(s, bobj), observe(s, a)); scop = 'ScIlshiftPokeFlip'
+      s_cases.append(f'({scop}, {v_term(s, va)}, {v_term(s, vb)}, {"true" if who else "false"}, {TR.t_path(p)}, {zlit(u)}, '
+                     f'({v_term(s, obs[0])}, {v_term(s, obs[1])}))')
+      s_meta.append((c, op, va, vb, who, p, u, obs, hows))
+      ctx.count((op, c.spec(), repr(va), repr(vb), who, p, u, hows), True, cls=f'copy:{op}:{hows[0]}' + (f'<-{hows[1]}' if op not in ('poke', 'clone', 'deepcopy') else ''))
+    except NotWellTyped as e:
+      viol_value(op + '-illtyped', c, f'{op}: an object holds an ill-typed field afterwards: {e}', {'value': va, 'other': vb, 'built_by': hows})
+    except Exception as e:
+      viol_value(op, c, f'{op} raised {e!r}', {'value': va, 'other': vb, 'built_by': hows, 'traceback': traceback.format_exc()[-800:]})
 
   for c in classes:
     s = ('s', c); W = c.width; full = (1 << W) - 1
@@ -373,64 +506,19 @@ def run(ctx):
           viol_value('hash', c, f'hash raised {e!r}', {'value': v})
       # ---- copies: clone / deepcopy / @= / <<= , then an in-place write to one leaf of one side
       va = v; vb = v_unpack(s, rng.getrandbits(W) if bi % 2 else full ^ bv)
-      all_ops = ['clone', 'deepcopy', 'imatmul', 'imatmul_bits', 'ilshift_noflip', 'ilshift_flip', 'ilshift_poke_flip']
+      all_ops = ['poke', 'clone', 'deepcopy', 'imatmul', 'imatmul_bits', 'ilshift_noflip', 'ilshift_flip', 'ilshift_poke_flip']
       for op in (all_ops if (not quick or c.idx < 12) else rng.sample(all_ops, 4)):
-        p, w = rng.choice(leaves)
-        who = rng.random() < 0.5
-        try:
-          a = build(s, va); bobj = build(s, vb)
-          cur_leaf = leaf_obj(s, a, p)
-          u = (int(cur_leaf.uint()) + 1 + rng.randrange(max(1, (1 << w) - 1))) % (1 << w) if w > 1 else 1 - int(cur_leaf.uint())
-          newv = mk_bits(w)(u)
-          if op in ('clone', 'deepcopy'):
-            cpy = a.clone() if op == 'clone' else copy.deepcopy(a)
-            if type(cpy) is not c.pycls or not (cpy == a):
-              viol_value(op + '-neq', c, f'{op}() is not equal to the original', {'value': va})
-            shared = set(ids(s, a, [])) & set(ids(s, cpy, []))
-            if shared:
-              viol_value(op + '-shared', c, f'{op}() shares {len(shared)} sub-object(s) with the original', {'value': va})
-            tgt = cpy if who else a
-            # the leaf written must differ from BOTH current values (they are equal here)
-            operator.imatmul(leaf_obj(s, tgt, p), newv)
-            obs = (observe(s, a), observe(s, cpy)); scop = 'ScClone'
-          elif op == 'imatmul_bits':
-            a @= bobj.to_bits()
-            if packed(a) != packed(bobj):
-              viol_value(op, c, 'x @= Bits(...) did not store the value', {'value': va, 'bits': hex(packed(bobj))})
-            ctx.count((op, c.spec(), repr(va), repr(vb)), True, cls='copy:' + op)
-            continue
-          elif op == 'imatmul':
-            a @= bobj
-            if set(ids(s, a, [])) & set(ids(s, bobj, [])):
-              viol_value(op + '-shared', c, '@= left the destination sharing sub-objects with the source', {'value': va, 'other': vb})
-            tgt = a if who else bobj
-            ub = int(leaf_obj(s, tgt, p).uint()); u = (ub + 1) % (1 << w); newv = mk_bits(w)(u)
-            operator.imatmul(leaf_obj(s, tgt, p), newv)
-            obs = (observe(s, bobj), observe(s, a)); scop = 'ScImatmul'
-          elif op == 'ilshift_noflip':
-            a <<= bobj
-            obs = (observe(s, bobj), observe(s, a)); scop = 'ScIlshiftNoFlip'
-          elif op == 'ilshift_flip':
-            a <<= bobj
-            a._flip()
-            if set(ids(s, a, [])) & set(ids(s, bobj, [])):
-              viol_value(op + '-shared', c, '<<= / _flip left the destination sharing sub-objects with the source', {'value': va, 'other': vb})
-            tgt = a if who else bobj
-            ub = int(leaf_obj(s, tgt, p).uint()); u = (ub + 1) % (1 << w); newv = mk_bits(w)(u)
-            operator.imatmul(leaf_obj(s, tgt, p), newv)
-            obs = (observe(s, bobj), observe(s, a)); scop = 'ScIlshiftFlip'
-          else:
-            a <<= bobj
-            ub = int(leaf_obj(s, bobj, p).uint()); u = (ub + 1) % (1 << w); newv = mk_bits(w)(u)
-            operator.imatmul(leaf_obj(s, bobj, p), newv)
-            a._flip()
-            obs = (observe(s, bobj), observe(s, a)); scop = 'ScIlshiftPokeFlip'
-          s_cases.append(f'({scop}, {v_term(s, va)}, {v_term(s, vb)}, {"true" if who else "false"}, {TR.t_path(p)}, {zlit(u)}, '
-                         f'({v_term(s, obs[0])}, {v_term(s, obs[1])}))')
-          s_meta.append((c, op, va, vb, who, p, u, obs))
-          ctx.count((op, c.spec(), repr(va), repr(vb), who, p, u), True, cls='copy:' + op)
-        except Exception as e:
-          viol_value(op, c, f'{op} raised {e!r}', {'value': va, 'other': vb, 'traceback': traceback.format_exc()[-800:]})
+        scenario(c, op, va, vb, 'auto', 'auto')
+    # ---- default-constructed and partly default-constructed instances, as destination, as source, and written in place
+    zero = v_unpack(s, 0)
+    for rep in range(1 if quick else 3):
+      vr = v_unpack(s, rng.getrandbits(W))
+      vp = [x if (f[0] == 'b' or rng.random() < 0.5) else v_unpack(f, 0) for (_, f), x in zip(c.fields, vr)]   # some struct/list fields left to their default
+      for op, va_, vb_, ha, hb in (('poke', zero, zero, 'default', 'default'), ('poke', vp, vp, 'partial', 'partial'),
+                                   ('imatmul', zero, vr, 'default', 'auto'), ('imatmul', vr, zero, 'auto', 'default'), ('imatmul', vp, vr, 'partial', 'auto'),
+                                   ('ilshift_flip', zero, vr, 'default', 'auto'), ('ilshift_flip', vr, zero, 'auto', 'default'),
+                                   ('ilshift_poke_flip', vp, vr, 'partial', 'args'), ('clone', zero, zero, 'default', 'default'), ('deepcopy', vp, vp, 'partial', 'partial')):
+        scenario(c, op, va_, vb_, ha, hb)
 
   def hexs(t):
     t = re.sub(r'\b\d{6,}\b', lambda m: hex(int(m.group(0))), t)
@@ -455,11 +543,11 @@ def run(ctx):
   bad = ctx.coq_bad_indices('store', imports, '', 'sc_op * value * value * bool * path * Z * (value * value)', s_cases,
                             "let '(op, va, vb, who, p, u, obs) := c in let r := run_scenario op va vb who p u in veqb (fst r) (fst obs) && veqb (snd r) (snd obs)", shard=400)
   for i in bad[:6]:
-    c, op, va, vb, who, p, u, obs = s_meta[i]
+    c, op, va, vb, who, p, u, obs, hows = s_meta[i]
     exp = ctx.coq_eval('sexp', imports, '', [f"let '(op, va, vb, who, p, u, obs) := {s_cases[i]} in run_scenario op va vb who p u"])
-    viol_value(op, c, f'{op}: after the copy and an in-place write of {u} to leaf {TR.t_path(p)} of the {"copy/destination" if who else "original/source"} '
+    viol_value(op, c, f'{op} (objects built by {hows}): after the copy and an in-place write of {u} to leaf {TR.t_path(p)} of the {"copy/destination" if who else "original/source"} '
                f'the two objects hold {obs}, the model (independent copies) gives {hexs(exp[0])}',
-               {'value': va, 'other': vb, 'write_to_copy': who, 'leaf_path': TR.t_path(p), 'written': u, 'observed': obs, 'expected': exp[0]})
+               {'value': va, 'other': vb, 'built_by': hows, 'write_to_copy': who, 'leaf_path': TR.t_path(p), 'written': u, 'observed': obs, 'expected': exp[0]})
   # ---- hash() raising: the property demands hashing to agree with the packed value for every bitstruct type
   if hash_raised:
     only_lists = all(c.has_list for c, _, _ in hash_raised)
